@@ -1,6 +1,7 @@
 """C12 — config inheritance and namespace attribution follow the instantiated tree.
 
-Per generated module set (check/props/schema_gen.py plus feature sets) two legs:
+Per generated module set (check/props/schema_gen.py, feature sets, and `hook_schemas`: childless extension points of a
+grouping used in several config contexts with augments by different modules into single instances) these legs:
   tie     the implementation's dump (every node with namespace, read-only flag and instantiating module computed by
           Entry.Namespace / ReadOnly / InstantiatingModule) must equal, character for character, the dump of the
           extracted model (Schema.Process + Namespace / ReadOnly / InstantiatingModule; cmd `resolve`).
@@ -395,14 +396,82 @@ def feature_schemas():
     out.append([_m("o", "o", "urn:o", body=[("rpc", False, "r", None, [_lf("x", True), ("container", "c", True, [_lf("y")]), _lf("z")])])])
     out.append([_m("a", "a", "urn:a", body=[("choice", "ch", None, None, None, [_lf("l")])]),
                 _m("b", "b", "urn:b", imports=[("a", "a")], augments=[("/a:ch", [_lf("x")])])])
+    # an empty extension point of a grouping used read-write, config false and in rpc input/output; three modules each
+    # augment ONE instance
+    out.append([_m("a", "a", "urn:a", body=[("grouping", 1, "ext", [("container", "hook", None, [])]),
+                                            ("container", "cfg", None, [("uses", "ext"), _lf("name")]),
+                                            ("container", "state", False, [("uses", "ext"), _lf("name")]),
+                                            ("rpc", False, "run", [("uses", "ext")], [("uses", "ext")])]),
+                _m("b", "b", "urn:b", imports=[("a", "a")], augments=[("/a:state/a:hook", [_lf("counters")])]),
+                _m("c", "c", "urn:c", imports=[("a", "a")], augments=[("/a:cfg/a:hook", [("container", "knobs", None, [_lf("knob")])])]),
+                _m("d", "d", "urn:d", imports=[("a", "a")], augments=[("/a:run/a:output/a:hook", [_lf("result")])])])
     # two modules with one namespace: InstantiatingModule fails for both trees
     out.append([_m("p", "p", "urn:same", body=[_lf("x")]), _m("q", "q", "urn:same", body=[_lf("y")])])
     return out
 
 
+def hook_schemas(rnd, n):
+    """childless extension points (container, list, case, rpc input/output written without statements) inside a grouping
+    that is used in several config contexts -- read-write, config false, rpc input and output, notification --, and
+    augments by DIFFERENT modules into single instances: every instance is a tree of its own"""
+    out = []
+    for _ in range(n):
+        kinds = rnd.sample(["container", "list", "case", "rpc"], rnd.randint(1, 3))
+        gbody = []
+        for k in kinds:
+            if k == "container":
+                gbody.append(("container", "hook", None, []))
+            elif k == "list":
+                gbody.append(("list", "hl", None, None, None, None, []))
+            elif k == "case":
+                gbody.append(("choice", "hch", None, None, None, [("case", "hc", [])]))
+            else:
+                gbody.append(("rpc", True, "hact", [], []))
+        if rnd.random() < 0.5:
+            gbody.append(_lf("gname", rnd.choice([None, None, False])))
+        a = _m("a", "a", "urn:a", body=[("grouping", 1, "ext", gbody)])
+        ctxs = []
+        for name, cfg in (("cfg", None), ("cfgt", True), ("state", False)):
+            if rnd.random() < 0.8:
+                a["body"].append(("container", name, cfg, [("uses", "ext"), _lf("name")]))
+                ctxs.append([name])
+        if rnd.random() < 0.6:
+            a["body"].append(("container", "mixed", False, [("container", "rw", True, [("uses", "ext")])]))
+            ctxs.append(["mixed", "rw"])
+        if "rpc" not in kinds and rnd.random() < 0.7:          # an action may not sit inside an rpc
+            a["body"].append(("rpc", False, "run", [("uses", "ext")], [("uses", "ext")]))
+            ctxs += [["run", "input"], ["run", "output"]]
+        if "rpc" not in kinds and rnd.random() < 0.4:
+            a["body"].append(("notification", "nt", [("uses", "ext")]))
+            ctxs.append(["nt"])
+        if len(ctxs) < 2:
+            a["body"].append(("container", "extra", None, [("uses", "ext")]))
+            a["body"].append(("container", "extra2", False, [("uses", "ext")]))
+            ctxs += [["extra"], ["extra2"]]
+        targets = {"container": ["hook"], "list": ["hl"], "case": ["hch", "hc"], "rpc": None}
+        mods = [a]
+        rnd.shuffle(ctxs)
+        for i, cx in enumerate(ctxs[:rnd.randint(1, min(4, len(ctxs)))]):
+            k = rnd.choice(kinds)
+            if k == "rpc":
+                tail = ["hact", rnd.choice(["input", "output"])]
+            else:
+                tail = targets[k]
+            path = "/" + "/".join("a:" + x for x in cx + tail)
+            body = [_lf("aug%d" % i, rnd.choice([None, None, True, False]))]
+            if rnd.random() < 0.5:
+                body.append(("container", "knobs%d" % i, rnd.choice([None, None, False]), [_lf("knob")]))
+            if rnd.random() < 0.3:
+                a["augments"].append((path, body))                 # by the module itself
+            else:
+                mods.append(_m("b%d" % i, "b%d" % i, "urn:b%d" % i, imports=[("a", "a")], augments=[(path, body)]))
+        out.append(mods)
+    return out
+
+
 def gen_schemas(rnd, n):
     """(schema, with_oracle)"""
-    out = []
+    out = [(s, True) for s in hook_schemas(rnd, max(12, n // 12))]
     for i in range(n):
         r = rnd.random()
         if r < 0.35:
